@@ -245,6 +245,9 @@ def f_group_by_constant_column(prog, idxs, ctx):
                     const_names.add(n)
                 else:
                     const_names.discard(n)
+        if st["verb"] == "rename":
+            mp = {(k if isinstance(k, str) else k.get("n")): n for k, n in st["map"]}
+            const_names = {mp.get(n, n) for n in const_names} - {n for o, n in mp.items() if o not in const_names}
         if st["verb"] == "group_by":
             for e in st["cols"]:
                 if e.get("n") in const_names:
@@ -281,6 +284,8 @@ def f_mssql_offset_in_subquery(prog, idxs, ctx):
             seen_offset = True
         if seen_offset and st["verb"] == "alias":
             return True
+        if seen_offset and st["verb"] == "mutate" and any(not has_col(e) for _n, e in st["kw"]):
+            return True  # the dummy ORDER BY column may be a constant (constants are not rendered in ORDER BY)
     return False
 
 
